@@ -125,8 +125,8 @@ func (e *Env) GetEnvFromPath(path []string) (*Env, error) {
 		value, ok = e.values[path[0]]
 		e.rwMutex.RUnlock()
 		if ok {
-			e, ok = value.Interface().(*Env)
-			if ok {
+			if module, isEnv := value.Interface().(*Env); isEnv {
+				e = module
 				break
 			}
 		}
